@@ -566,6 +566,21 @@ def test_pm1(lh, rng, quick):
         add("tree %d random" % t, E.random_cmds(rng, m, n=rng.randint(50, 1200), tree=t, len_cap=rng.choice((10, 60, 244)),
                                                 run_bias=0.02), tree=t, alt_codes="random", seed=t)
         add("tree %d mostly literals" % t, E.random_cmds(rng, m, n=300, tree=t, lit_prob=0.95), tree=t, tail="implicit")
+    # the stream's last literal is the first of its class (its extra bits are all zero) and nothing follows it: with 0..7 literals in
+    # front the code ends at every bit position of the last byte, so that dropping the zero bytes at the end of the stream cuts inside the code
+    for t in range(31):
+        cls = E.tree_classes(t)
+        for k in cls:
+            base, bits = E.LIT_CLASSES[k]
+            for npre in range(8):
+                mtf = enc_pm1.MTF()
+                cm = []
+                for q in range(npre):
+                    b0 = mtf.at(E.LIT_CLASSES[cls[q % len(cls)]][0] + (q % 3))
+                    cm.append(L(b0))
+                    mtf.touch(b0)
+                cm.append(L(mtf.at(base)))
+                add("tree %d: last literal first of class %d, %d before, nothing after" % (t, k, npre), cm, tree=t, tail="implicit")
     add("tree auto on text", [L(b) for b in b"the quick brown fox jumps over the lazy dog"] + [C(3, 9)])
     add("tree first / last", [L(0x20), L(0x21)], tree="first")
     add("tree last", [L(0x20), L(0x21)], tree="last")
